@@ -459,8 +459,55 @@ class _FuncAnalysis:
         if isinstance(construct, ast.For):
             if all(_commutative_stmt(s) for s in construct.body):
                 return "loop body consists of commutative updates only"
+            d = _fills_keyed_toposort_input(construct)
+            if d:
+                return d
             return None
         return None
+
+
+def _fills_keyed_toposort_input(loop):
+    """the loop only binds locals and stores entries `D[k] = v` of one mapping D, and
+    D is used for nothing but `compute_topological_order(D, key=...)`: the order in
+    which D was filled cannot be observed (ties are broken by the key)"""
+    tables = set()
+    for st in loop.body:
+        if isinstance(st, (ast.Assign, ast.AnnAssign)):
+            tg = st.targets if isinstance(st, ast.Assign) else [st.target]
+            if all(isinstance(t, ast.Name) for t in tg):
+                continue
+            if len(tg) == 1 and isinstance(tg[0], ast.Subscript) \
+                    and isinstance(tg[0].value, ast.Name):
+                tables.add(tg[0].value.id)
+                continue
+        if isinstance(st, (ast.Assert, ast.Pass)):
+            continue
+        return None
+    if len(tables) != 1:
+        return None
+    tbl = tables.pop()
+    fd = loop
+    while fd is not None and not isinstance(fd, (ast.FunctionDef, ast.AsyncFunctionDef)):
+        fd = getattr(fd, "_parent", None)
+    if fd is None:
+        return None
+    n_use = 0
+    for x in ast.walk(fd):
+        if isinstance(x, ast.Name) and x.id == tbl and isinstance(x.ctx, ast.Load):
+            par = getattr(x, "_parent", None)
+            if isinstance(par, ast.Subscript) and par.value is x and isinstance(
+                    par.ctx, ast.Store):
+                continue
+            if isinstance(par, ast.Call) and par.args and par.args[0] is x \
+                    and ast.unparse(par.func).split(".")[-1] == "compute_topological_order" \
+                    and any(k.arg == "key" for k in par.keywords):
+                n_use += 1
+                continue
+            return None
+    if n_use:
+        return (f"only fills `{tbl}`, which is used for nothing but "
+                "compute_topological_order(..., key=...): ties are broken by the key")
+    return None
 
 
 def _own_nodes(fd):
